@@ -405,6 +405,12 @@ func subj(s int) ManifestOpt {
 func Extra(name string) *DAG {
 	d := &DAG{Name: name}
 	switch name {
+	case "shared-leaf": // the smallest graph in which one leaf is a successor of two manifests that are copied side by side
+		x := d.Blob("X", MTConfig, "{}")
+		sh := d.Blob("S", MTLayer, "s")
+		a := d.Manifest("A", x, []int{sh}, no())
+		b := d.Manifest("B", sh, nil, no())
+		d.Index("I", []int{a, b}, no())
 	case "urls-layer": // an ordinary layer whose descriptor lists mirror URLs: still copied
 		c := d.Blob("C", MTConfig, "{}")
 		l := d.Blob("L", MTLayer, "l")
